@@ -5,7 +5,7 @@ CONSTANTS
   Bad = 99
   Cooldown = 2
   MaxNow = 4
-  MaxLen = 7
+  MaxLen = 6
   RepFloor = 4
   RepMax = 1
   Reward = 1
